@@ -11,6 +11,10 @@ use std::time::Instant;
 pub fn verif_dir() -> PathBuf {
     PathBuf::from(std::env::var("VERIF_DIR").unwrap_or_else(|_| "/verif".to_string()))
 }
+/// VERIF_SMOKE=1: reduced plan (see vglue::case::run_part); floors are skipped
+pub fn smoke() -> bool {
+    std::env::var("VERIF_SMOKE").map(|v| v == "1").unwrap_or(false)
+}
 pub fn seed() -> i64 {
     std::env::var("VERIF_SEED").ok().and_then(|s| s.parse().ok()).unwrap_or(0)
 }
@@ -104,6 +108,9 @@ impl Report {
         *self.counters.entry(name.to_string()).or_insert(0) += n;
     }
     pub fn floor(&mut self, name: &str, min: u64) {
+        if smoke() {
+            return;
+        }
         let got = self.counters.get(name).copied().unwrap_or(0);
         if got < min {
             self.machinery_errors.push(format!("anti-vacuity floor not met: {} = {} < {}", name, got, min));
